@@ -7,10 +7,13 @@ Protocol (one self-contained case per line; `lean/OFCore/OFCore/Drv/Dmp.lean` do
 A case is a *scenario* (payload): a programmatic tax-benefit system (person + 0–2 group
 entities; variables of every value type — float, int, bool, str, str with max_length, date,
 Enum — and every definition period), a population (memberships, roles, empty groups, also a
-trailing one), a storage configuration (memory / disk / dropped variables / trace /
+trailing one; in more than half of the cases member positions explicitly assigned to a permutation
+inside each group that is not the order of appearance, in a share explicit roles incl. sub-roles
+and explicit identifiers), a storage configuration (memory / disk / dropped variables / trace /
 opt-out cache), inputs on unit-aligned periods (rolling years, multi-month and multi-week
 periods through the dispatch / divide helpers, weeks, weekdays, ETERNITY), 0–5 top-level
-requests (`calculate`, `calculate_add`, `calculate_divide`) and 1–3 further calculations.
+requests (`calculate`, `calculate_add`, `calculate_divide`) and 1–5 further calculations (among them NEW position- and
+role-dependent ones: `value_from_first_person`, `value_nth_person`, `sum(role=…)`, `nb_persons(role=…)`).
 
 * The generator runs the scenario on the real engine and writes the *state reached* (entity
   structure + both stores of every holder) into the line: the model replays that state through
@@ -67,7 +70,10 @@ REQUESTS = [
     ("calculate_divide", "c_y", ["2018-01"]),
     ("calculate_divide", "f_y", ["2018-03"]),
 ]
-GROUP_REQUESTS = [("calculate", "{k}_c_y", "year"), ("calculate", "{k}_nb", "month"),
+POSITION_REQUESTS = [("calculate", "{k}_first", "month"), ("calculate", "{k}_nth1", "month"),
+                     ("calculate", "{k}_nth2", "month"), ("calculate", "{k}_role_sum", "month"),
+                     ("calculate", "{k}_role_nb", "month")]
+GROUP_REQUESTS = POSITION_REQUESTS + [("calculate", "{k}_c_y", "year"), ("calculate", "{k}_nb", "month"),
                   ("calculate", "proj_{k}", "year"), ("calculate", "{k}_e_et", "eternity"),
                   ("calculate", "{k}_s_m", "month")]
 
@@ -84,7 +90,7 @@ def _roles_of(sid, gkey):
 
 def _gen_groups(rng, sid, gkey, persons):
     roles = _roles_of(sid, gkey)
-    ng = rng.randint(1, 3)
+    ng = rng.choice([1, 1, 2, 2, 3])
     insts = [(f"{gkey[0]}{j}", {}) for j in range(ng)]
     left_out = 0
     for pid in persons:
@@ -125,15 +131,15 @@ def gen_scenario(rng: random.Random, kind: str = "any") -> dict:
     sc: dict = {"sid": sid}
     if sid == 4 or rng.random() < 0.15:
         sc["build"] = "default"
-        sc["count"] = rng.randint(1, 5)
+        sc["count"] = rng.choice([1, 2, 3, 4, 4, 5, 5, 6])
         remap = {}
         for g in info["groups"]:
             if rng.random() < 0.6:
-                remap[g] = [rng.randint(0, 4) for _ in range(5)]
+                remap[g] = [rng.randint(0, rng.choice([1, 2, 4])) for _ in range(6)]
         sc["remap"] = remap
     else:
         sc["build"] = "entities"
-        n = rng.randint(1, 6)
+        n = rng.choice([1, 2, 3, 3, 4, 4, 5, 6, 7])
         persons = [f"p{i}" for i in range(n)] if rng.random() < 0.7 else [f"{chr(233)}{i}" for i in range(n)]
         rng.shuffle(persons)
         sc["persons"] = persons
@@ -165,6 +171,25 @@ def gen_scenario(rng: random.Random, kind: str = "any") -> dict:
 
     sc["requests"] = [pick_request() for _ in range(rng.randint(0, 5))]
     sc["post"] = [pick_request() for _ in range(rng.randint(1, 3))]
+    # structural fields in a non-default state (a field only generated at its default is not checked)
+    roled = [g for g in info["groups"] if _roles_of(sid, g)]
+    if roled and rng.random() < 0.75:
+        sc["positions"] = {g: rng.randrange(1 << 30) for g in roled if rng.random() < 0.85} or \
+                          {roled[0]: rng.randrange(1 << 30)}
+    if roled and rng.random() < (0.6 if sc["build"] == "default" else 0.15):
+        sc["roles"] = {g: rng.randrange(1 << 30) for g in roled if rng.random() < 0.8}
+    if rng.random() < (0.6 if sc["build"] == "default" else 0.2):
+        sc["ids"] = {k: (rng.choice(["ints", "array", "strs"]), rng.randrange(1 << 30))
+                     for k in ["person"] + info["groups"] if rng.random() < 0.7}
+    if roled and (sc.get("positions") or sc.get("roles") or rng.random() < 0.3):
+        # NEW calculations after the restore that read positions / roles, on distinct member values
+        per = rng.choice(PERIODS["month"][:5])
+        sc["inputs"] = sc["inputs"] + [("f_m", per, rng.randrange(1 << 30)), ("i_m", per, rng.randrange(1 << 30))]
+        g = rng.choice(sorted(sc.get("positions") or sc.get("roles") or roled))
+        picks = rng.sample(POSITION_REQUESTS, rng.randint(2, 3))
+        if sc.get("positions") and not any("first" in v or "nth" in v for _k, v, _u in picks):
+            picks[0] = POSITION_REQUESTS[rng.randrange(2)]
+        sc["post"] = sc["post"][:2] + [(k, v.format(k=g), per) for k, v, _u in picks]
     return sc
 
 
@@ -243,6 +268,15 @@ def _state_tags(line: str) -> list:
                 tags.add("rolling-year")
         elif f[0] == "P" and len(f) == 7 and f[4] != "-":
             mei = [int(x) for x in f[4].split(",")]
+            seen: dict = {}
+            default_pos = []
+            for g in mei:
+                default_pos.append(seen.get(g, 0))
+                seen[g] = seen.get(g, 0) + 1
+            if f[6] != "-" and [int(x) for x in f[6].split(",")] != default_pos:
+                tags.add("positions-not-appearance-order")
+            if f[5] != "-" and len(set(f[5].split(","))) > 1:
+                tags.add("roles-mixed")
             if max(mei) + 1 < int(f[2]):
                 tags.add("trailing-empty-group")
             if len(set(mei)) < max(mei) + 1:
@@ -255,6 +289,9 @@ def make_case(sc, origin="gen", line=None) -> Case:
     line = _line(sc) if line is None else line
     tags = [f"sid{sc['sid']}", sc["build"], "mem" if sc.get("config", {}).get("mem") else "nomem",
             f"requests{len(sc.get('requests', []))}"] + _state_tags(line)
+    for k in ("positions", "roles", "ids"):
+        if sc.get(k):
+            tags.append(k + ":explicit")
     if tag:
         tags.append("poke:" + tag)
     return Case(line=line, payload=sc, claimed=(tag != "unaligned"), tags=tuple(tags), origin=origin)
@@ -297,7 +334,7 @@ def _compare(orig, rest, sc):
             continue
         trailing = (not po.entity.is_person and len(po.members_entity_id) > 0
                     and int(numpy.max(po.members_entity_id)) + 1 < po.count)
-        if [str(i) for i in po.ids] != [str(i) for i in pr.ids]:
+        if [du.id_tok(i) for i in po.ids] != [du.id_tok(i) for i in pr.ids]:
             out.append(("ids", f"{key}: ids {list(po.ids)} restored as {list(pr.ids)}"))
         if int(po.count) != int(pr.count):
             sig = "trailing-empty-group" if trailing else "count"
@@ -439,6 +476,20 @@ def corpus():
     # F-C19d: a group entity without roles
     yield make_case({"sid": 4, "build": "default", "count": 3, "remap": {}, "config": {},
                      "inputs": [("club_f_y", "2018", 5)], "requests": [], "post": [("calculate", "c_m", "2018-01")]})
+    # explicit member positions that are not the order of appearance (a survey's own ranking), explicit
+    # sub-roles and identifiers; NEW position- and role-dependent calculations after the restore
+    yield make_case({"sid": 0, "build": "entities", "persons": ["a", "b", "c"],
+                     "groups": {"household": [("h1", {"parents": ["a", "b"], "children": ["c"]})]},
+                     "config": {}, "positions": {"household": 1}, "inputs": [("f_m", "2018-01", 5), ("i_m", "2018-01", 6)],
+                     "requests": [("calculate", "household_first", "2018-01")],
+                     "post": [("calculate", "household_nth1", "2018-01"), ("calculate", "household_first", "2018-02"),
+                              ("calculate", "household_nth2", "2018-01")]})
+    yield make_case({"sid": 1, "build": "default", "count": 4, "remap": {"household": [1, 1, 0, 1], "firm": [0, 2, 2, 2]},
+                     "config": {}, "positions": {"household": 3, "firm": 4}, "roles": {"household": 5, "firm": 6},
+                     "ids": {"person": ("strs", 7), "household": ("ints", 8), "firm": ("array", 9)},
+                     "inputs": [("f_m", "2018-01", 5)], "requests": [],
+                     "post": [("calculate", "firm_first", "2018-01"), ("calculate", "household_role_sum", "2018-01"),
+                              ("calculate", "household_role_nb", "2018-01")]})
     # every unit and type at once, disk store, rolling year, multi-month, weeks, eternity
     yield make_case({"sid": 1, "build": "entities", "persons": ["a", "b", "c", "d"],
                      "groups": {"household": [("h1", {"parents": ["a", "b"], "children": ["c"]}), ("h2", {"children": ["d"]}), ("h3", {})],
@@ -487,8 +538,10 @@ def enumerate_thorough():
                               for g in info["groups"]}
                     scs.append({"sid": sid, "build": "entities", "persons": ["a", "b", "c"], "groups": groups,
                                 "config": {"mem": {"priority": [], "drop": []}} if mem else {},
-                                "inputs": [(var, per, len(scs) + 7)], "requests": [],
-                                "post": [("calculate", "c_m", "2018-01"), ("calculate", f"{gkey}_nb", "2018-01")]})
+                                "positions": {g: len(scs) + 11 for g in info["groups"]},
+                                "inputs": [(var, per, len(scs) + 7), ("f_m", "2018-01", len(scs) + 9)], "requests": [],
+                                "post": [("calculate", "c_m", "2018-01"), ("calculate", f"{gkey}_nb", "2018-01"),
+                                         ("calculate", f"{gkey}_first", "2018-01")]})
         del role
     for sc, line in zip(scs, _lines(scs)):
         if line.startswith("FAILED "):
